@@ -35,9 +35,21 @@ Import ListNotations.
 (* ================================================================================================================ *)
 (* Part A: writer outcomes                                                                                           *)
 (* ================================================================================================================ *)
-Inductive wres := WOk | WEio | WErr.
+(* WShort: the pwrite transferred fewer bytes than the block (a filling disk): parity_write (parity.c) accepts a write only when the
+   count is the whole block (`write_ret != block_size` -> error); the block on disk is then half new; errno is not set by a short
+   count, so sync_parity_writer takes its non-EIO branch: TASK_STATE_ERROR, like ENOSPC *)
+Inductive wres := WOk | WEio | WErr | WShort.
+
+(* what the system call returns, and how parity_write + sync_parity_writer classify it *)
+Inductive pwret := PwCount (n : N) | PwFail (eio : bool).
+Definition classify_pwrite (bs : N) (r : pwret) : wres :=
+  match r with
+  | PwCount n => if N.eqb n bs then WOk else WShort
+  | PwFail true => WEio
+  | PwFail false => WErr
+  end.
 Definition w_is_eio (w : wres) : bool := match w with WEio => true | _ => false end.
-Definition w_is_err (w : wres) : bool := match w with WErr => true | _ => false end.
+Definition w_is_err (w : wres) : bool := match w with WErr | WShort => true | _ => false end.
 Definition w_failed (w : wres) : bool := match w with WOk => false | _ => true end.
 
 (* --test-io-cache 1 / n >= 3 (IO_MIN) *)
@@ -65,16 +77,19 @@ Definition sum_eio (l : list wrep) : nat := fold_right (fun w s => (wr_eio w + s
 Definition sum_err (l : list wrep) : nat := fold_right (fun w s => (wr_err w + s)%nat) 0%nat l.
 Definition rep_nonzero (w : wrep) : bool := negb ((wr_eio w + wr_err w =? 0)%nat).
 
-(* the pwrite of each level: PEnc v where it succeeds, the old block where it fails *)
+(* the pwrite of each level: PEnc v where it succeeds, the old block where it fails, junk after a short count *)
 Definition write_levels (par : parity) (pos : nat) (v : list bid) (wl : nat -> wres) : parity :=
-  map (fun llv : nat * list penc => match wl (fst llv) with WOk => set_ext PNone pos (PEnc v) (snd llv) | _ => snd llv end)
+  map (fun llv : nat * list penc => match wl (fst llv) with
+                                    | WOk => set_ext PNone pos (PEnc v) (snd llv)
+                                    | WShort => set_ext PNone pos (PJunk 0) (snd llv)      (* half written *)
+                                    | _ => snd llv end)
       (combine (seq 0 (length par)) par).
 (* one report per failing level: every level has its own writer thread, which reports on its own schedule `lag pos l` *)
 Definition level_reports (m : iomode) (lag : nat -> nat -> nat) (it pos : nat) (wl : nat -> wres) (nl : nat) : list wrep :=
   flat_map (fun l => match wl l with
                      | WOk => []
                      | WEio => [mkWR (report_due m (lag pos l) it) 1 0 pos]
-                     | WErr => [mkWR (report_due m (lag pos l) it) 0 1 pos]
+                     | WErr | WShort => [mkWR (report_due m (lag pos l) it) 0 1 pos]
                      end) (seq 0 nl).
 
 (* sync.c `end:` after the repair 1304269: io_stop, then the counters filled since the last io_write_next are drained *)
@@ -224,6 +239,29 @@ Definition scrub_stripe (limit io_before : nat) (now : N) (inf : info) (disks : 
               else if sa_err a3 then inf
               else mkInfo now false false false in
   mkSO2 inf' false (sa_nerr a3) (sa_nsilent a3) (sa_nio a3).
+
+(* ================================================================================================================ *)
+(* Part A'': the pre-hash phase of `sync -h` (sync.c state_hash_process): one outcome per block read, counters, status *)
+(* ================================================================================================================ *)
+Inductive hrd :=
+| HOk                 (* read and hashed (a REP block: the hash matches) *)
+| HMissing            (* file missing / no access / changed: ++error, the file is skipped, the phase goes on *)
+| HRepMismatch        (* a REP (copied) block whose data differs from the recorded hash: ++silent_error, skip_sync *)
+| HEio                (* EIO while reading: ++io_error, bail *)
+| HErr.               (* any other read/open/close error: ++error, bail *)
+Record hout := mkHO { h_nerr : nat; h_nsilent : nat; h_nio : nat; h_skip : bool; h_bailed : bool }.
+Definition hash_step (a : hout) (x : hrd) : hout :=
+  if h_bailed a then a else
+  match x with
+  | HOk => a
+  | HMissing => mkHO (S (h_nerr a)) (h_nsilent a) (h_nio a) (h_skip a) false
+  | HRepMismatch => mkHO (h_nerr a) (S (h_nsilent a)) (h_nio a) true false
+  | HEio => mkHO (h_nerr a) (h_nsilent a) (S (h_nio a)) true true
+  | HErr => mkHO (S (h_nerr a)) (h_nsilent a) (h_nio a) true true
+  end.
+Definition hash_phase (outs : list hrd) : hout := fold_left hash_step outs (mkHO 0 0 0 false false).
+(* state_hash_process returns -1, hence state_sync counts an unrecoverable error and the command exits with a failing status *)
+Definition hash_failing (h : hout) : bool := negb ((h_nerr h + h_nsilent h + h_nio h =? 0)%nat).
 
 (* ================================================================================================================ *)
 (* Part B: the effect trace of a sync and its crash states                                                           *)
